@@ -402,9 +402,7 @@ def job_restart(grid, must_kind, n_fail_max):
     mk('value', 'every returned result equals the result of an uninterrupted run')
     mk('reexec', 'no case that completed in the first run is executed again')
     mk('caseno', 'every returned record carries its own case number and grid index')
-    so = z3.Solver()
-    so.add(A)
-    results.append({'name': tag + ' [reachability twin]', 'key': 'twin', 'twin': True, 'verdict': str(so.check()) if npaths >= 1 else 'vacuous', 'solver_s': 0.0, 'info': {'paths': npaths}})
+    results.append({'name': tag + ' [reachability twin]', 'key': 'twin', 'twin': True, 'verdict': solve.sat_check(list(A), 60000) if npaths >= 1 else 'vacuous', 'solver_s': 0.0, 'info': {'paths': npaths}})
     return {'results': results, 'encoded': loader.ENCODED, 'paths': npaths, 'label': tag,
             'axioms': ['file system, multiprocessing pool, psutil replaced by an in-memory symbolic stub; study function = x*1000+y; a kill ends a case after k_i effects']}
 
